@@ -27,12 +27,12 @@ D12_FIRST_CR = "c06_first_cr_is_crlf()"
 H_FIRST_CR = r'''static int c06_first_cr_is_crlf(void) { /* the first CR at or behind the start is immediately followed by LF */
   int st = 0; for (u64 i = 0; i < C06_N; ++i) { if (i < c06_s || i >= c06_n || st) continue; if (c06_buf[i] == '\r') st = (i + 1 < c06_n && c06_buf[i + 1] == '\n') ? 2 : 1; }
   return st == 2; }'''
-H_STAR = r'''static int c06_star_hits_crlf(void) { /* star< sor< eol, one< 'a', '\n' > > > under cr_crlf: some iteration matches eol on CR LF */
-  u64 p = c06_s; int hit = 0;
-  for (u64 i = 0; i <= C06_N; ++i) { if (p >= c06_n) break;
+H_REP = r'''static int c06_rep_hits_crlf(void) { /* rep< 2, sor< eol, one< 'a', '\n' > > > under cr_crlf: both iterations match and one of them matches eol on CR LF */
+  u64 p = c06_s; int hit = 0, m = 0;
+  for (int k = 0; k < 2; ++k) { if (p >= c06_n) break;
     if (c06_buf[p] == '\r') { if (p + 1 < c06_n && c06_buf[p + 1] == '\n') { hit = 1; p += 2; } else p += 1; }
-    else if (c06_buf[p] == 'a' || c06_buf[p] == '\n') p += 1; else break; }
-  return hit; }'''
+    else if (c06_buf[p] == 'a' || c06_buf[p] == '\n') p += 1; else break; m++; }
+  return hit && m == 2; }'''
 U8 = 'ab\\n\\r\\xc3\\xa4\\xe2\\x82\\xac'
 
 # name, rule, bytes among "\n\r" the rule itself can consume, options
@@ -76,16 +76,11 @@ CASES = [
     dict(name='g_backtrack', cxx="sor< seq< any, eol, one< 'x' > >, seq< any, any > >", eats='\n\r', alphabet='ax\\n\\r', quick=1,
          d12="(c06_s + 4 <= c06_n && c06_buf[c06_s + 1] == '\\r' && c06_buf[c06_s + 2] == '\\n' && c06_buf[c06_s + 3] == 'x')"),
     dict(name='g_raise', cxx='seq< until< eol >, must< eof > >', eats='\n\r', can_raise=1, d12=D12_FIRST_CR, helpers=H_FIRST_CR, quick=1),
-    dict(name='g_star', cxx="star< sor< eol, one< 'a', '\\n' > > >", eats='\n\r', can_fail=0, d12='c06_star_hits_crlf()', helpers=H_STAR, alphabet='ab\\n\\r', nmax=4, loops=1),
-    dict(name='g_star_opt', cxx="seq< star< sor< eol, one< 'a', '\\n' > > >, one< 'b' > >", eats='\n\r', d12='c06_star_hits_crlf()', helpers=H_STAR, alphabet='ab\\n\\r', mode='optional', nmax=4, loops=1),
+    dict(name='g_rep', cxx="rep< 2, sor< eol, one< 'a', '\\n' > > >", eats='\n\r', d12='c06_rep_hits_crlf()', helpers=H_REP, alphabet='ab\\n\\r'),
+    # rewind_mode::optional: a local failure may leave the cursor moved; the position must still be the one of that cursor
+    dict(name='g_optional', cxx="seq< sor< eol, any >, one< 'b' > >", eats='\n\r', d12=D12_AT_S, alphabet='ab\\n\\r', mode='optional', quick=1),
     # positions stored in parse-tree nodes (node::start/success as called by parse_tree::parse, then node.begin()/end())
     dict(name='tree', cxx='sor< eol, any >', eats='\n\r', d12=D12_AT_S, tree=1, quick=1),
-    dict(name='raw_string', cxx="raw_string< '[', '=', ']' >", eats='\n\r', includes=['tao/pegtl/contrib/raw_string.hpp'], alphabet='[=]a\\n\\r', nmax=4, heavy=1,
-         d12="c06_raw_open_crlf()", helpers=r'''static int c06_raw_open_crlf(void) { /* the opening bracket [=*[ is immediately followed by CR LF (skipped with the eol rule) */
-  u64 p = c06_s; if (p >= c06_n || c06_buf[p] != '[') return 0; p++;
-  for (u64 i = 0; i < C06_N; ++i) { if (p < c06_n && c06_buf[p] == '=') p++; }
-  if (p >= c06_n || c06_buf[p] != '[') return 0; p++;
-  return p + 2 <= c06_n && c06_buf[p] == '\r' && c06_buf[p + 1] == '\n'; }'''),
 ]
 
 WRAP_TREE = '''// generated wrapper TU (C06, parse-tree nodes): %(cxx)s under the five end-of-line policies, eager and lazy
